@@ -99,6 +99,8 @@ package raft
 //@   ensures [C16.transfer-success-means-new-term] old(TaskSep(l) && QLabel(l) && l.transfer.timer.active) && l.transfer.task != nil ==> l.transfer.task.greplied == old(l.transfer.task.greplied) + 1 && (l.transfer.task.result == nil) == old(l.term > l.transfer.term)
 //@   ensures [C16.no-transfer-no-reply] old(TaskSep(l) && QLabel(l) && !l.transfer.timer.active) && l.transfer.task != nil ==> l.transfer.task.greplied == old(l.transfer.task.greplied)
 //@   ensures [C07.release-replies-all] old(TaskSep(l) && QLabel(l)) ==> forall(x, l.gq[x] && TaskOf(x) != nil ==> GRep(TaskOf(x)) == old(GRep(TaskOf(x))) + 1)
+// an accepted entry may still be committed by the next leader: its client must get the AMBIGUOUS answer
+//@   ensures [C07.release-ambiguous] old(TaskSep(l) && QLabel(l)) ==> forall(x, l.gq[x] && TaskOf(x) != nil ==> ((istype(TaskOf(x).result, plainError) && as(TaskOf(x).result, plainError) == ErrServerClosed) || (istype(TaskOf(x).result, NotLeaderError) && as(TaskOf(x).result, NotLeaderError).Lost)))
 //@   ensures [C15.release-replies-waiters] old(TaskSep(l) && QLabel(l)) ==> forall(i, old(InWS(l, i)) && old(WSTask(l, i)) != nil ==> GRep(old(WSTask(l, i))) == old(GRep(WSTask(l, i))) + 1)
 //@   ensures l.neHead == nil && l.neTail == nil && l.waitStable == nil && l.replUpdateCh == nil
 //@   ensures TransferKept(l, old(l.transfer.task), old(l.transfer.term), old(l.transfer.timer), old(l.transfer.newTermTimer))
@@ -109,6 +111,8 @@ package raft
 //@   loop 3 invariant old(TaskSep(l) && QLabel(l) && l.transfer.timer.active) && l.transfer.task != nil ==> l.transfer.task.greplied == old(l.transfer.task.greplied) + 1 && (l.transfer.task.result == nil) == old(l.term > l.transfer.term)
 //@   loop 3 invariant old(TaskSep(l) && QLabel(l) && !l.transfer.timer.active) && l.transfer.task != nil ==> l.transfer.task.greplied == old(l.transfer.task.greplied)
 //@   loop 3 invariant old(TaskSep(l) && QLabel(l)) ==> (ne != nil ==> l.gq[ref(ne)]) && forall(x, l.gq[x] && TaskOf(x) != nil ==> (Before(x, ne) ==> GRep(TaskOf(x)) == old(GRep(TaskOf(x))) + 1) && (!Before(x, ne) ==> GRep(TaskOf(x)) == old(GRep(TaskOf(x)))))
+//@   loop 3 invariant (istype(err, plainError) && as(err, plainError) == ErrServerClosed) || (istype(err, NotLeaderError) && as(err, NotLeaderError).Lost)
+//@   loop 3 invariant [C07.release-ambiguous] old(TaskSep(l) && QLabel(l)) ==> forall(x, l.gq[x] && TaskOf(x) != nil && Before(x, ne) ==> ((istype(TaskOf(x).result, plainError) && as(TaskOf(x).result, plainError) == ErrServerClosed) || (istype(TaskOf(x).result, NotLeaderError) && as(TaskOf(x).result, NotLeaderError).Lost)))
 //@   loop 3 invariant old(TaskSep(l) && QLabel(l)) ==> forall(i, InWS(l, i) && WSTask(l, i) != nil ==> GRep(WSTask(l, i)) == old(GRep(WSTask(l, i))))
 //@   loop 2 invariant TransferKept(l, old(l.transfer.task), old(l.transfer.term), old(l.transfer.timer), old(l.transfer.newTermTimer))
 //@   loop 2 invariant (old(l.leader) == l.nid ==> l.leader == 0) && (old(l.leader) != l.nid ==> l.leader == old(l.leader))
@@ -116,6 +120,7 @@ package raft
 //@   loop 2 invariant old(TaskSep(l) && QLabel(l) && l.transfer.timer.active) && l.transfer.task != nil ==> l.transfer.task.greplied == old(l.transfer.task.greplied) + 1 && (l.transfer.task.result == nil) == old(l.term > l.transfer.term)
 //@   loop 2 invariant old(TaskSep(l) && QLabel(l) && !l.transfer.timer.active) && l.transfer.task != nil ==> l.transfer.task.greplied == old(l.transfer.task.greplied)
 //@   loop 2 invariant old(TaskSep(l) && QLabel(l)) ==> forall(x, l.gq[x] && TaskOf(x) != nil ==> GRep(TaskOf(x)) == old(GRep(TaskOf(x))) + 1)
+//@   loop 2 invariant [C07.release-ambiguous] old(TaskSep(l) && QLabel(l)) ==> forall(x, l.gq[x] && TaskOf(x) != nil ==> ((istype(TaskOf(x).result, plainError) && as(TaskOf(x).result, plainError) == ErrServerClosed) || (istype(TaskOf(x).result, NotLeaderError) && as(TaskOf(x).result, NotLeaderError).Lost)))
 //@   loop 2 invariant -1 <= rangeindex && rangeindex < len(l.waitStable)
 //@   loop 2 invariant old(TaskSep(l) && QLabel(l)) ==> forall(i, InWS(l, i) && WSTask(l, i) != nil ==> (i <= base(l.waitStable) + rangeindex ==> GRep(WSTask(l, i)) == old(GRep(WSTask(l, i))) + 1) && (i > base(l.waitStable) + rangeindex ==> GRep(WSTask(l, i)) == old(GRep(WSTask(l, i)))))
 
